@@ -17,6 +17,7 @@
 static long g_countdown = 0;      // >0: the g_countdown-th allocation from now throws
 static long g_live = 0;
 static long g_faults = 0, g_allocs = 0;
+static long g_refusals = 0, g_up[4] = {0,0,0,0}, g_down[4] = {0,0,0,0}, g_maxgroup = 0, g_maxrows = 0;
 class FailMM
 {
 public:
@@ -54,7 +55,19 @@ MOMO_DATA_COLUMN_STRUCT(Struct, c);
 
 static const bool kKeepNumber = (VARIANT & 1) != 0;
 static const bool kDynamic = (VARIANT & 2) != 0;
-typedef momo::DataSettings<kKeepNumber> Settings;
+// coverage audit: besides the column-list flavour and keepRowNumber the four builds also differ in
+//   DataTraits::selectEqualityMaxCount (the pvSelect overload that turns the surplus equalities into nested filters),
+//   DataTraits::RawMemPoolParams (block count of the row pool) and Settings::checkVersion
+struct TraitsSel1 : public momo::DataTraits { static const size_t selectEqualityMaxCount = 1; typedef momo::MemPoolParams<1, 0> RawMemPoolParams; };
+struct TraitsSel2 : public momo::DataTraits { static const size_t selectEqualityMaxCount = 2; typedef momo::MemPoolParams<4, 2> RawMemPoolParams; };
+template<bool keep> struct SettingsNoVersion : public momo::DataSettings<keep> { static const bool checkVersion = false; };
+#if VARIANT == 1
+typedef TraitsSel1 Traits; typedef momo::DataSettings<kKeepNumber> Settings; static const size_t kSelMax = 1; static const bool kCheckVersion = MOMO_CHECK_ITERATOR_VERSION;
+#elif VARIANT == 2
+typedef TraitsSel2 Traits; typedef SettingsNoVersion<kKeepNumber> Settings; static const size_t kSelMax = 2; static const bool kCheckVersion = false;
+#else
+typedef momo::DataTraits Traits; typedef momo::DataSettings<kKeepNumber> Settings; static const size_t kSelMax = 6; static const bool kCheckVersion = MOMO_CHECK_ITERATOR_VERSION;
+#endif
 #if (VARIANT & 2) == 0
 typedef momo::DataColumnListStatic<Struct, momo::DataColumnInfo<Struct>, FailMM, Settings> ColumnList;
 static ColumnList makeColumnList() { return ColumnList(); }
@@ -62,7 +75,13 @@ static ColumnList makeColumnList() { return ColumnList(); }
 typedef momo::DataColumnList<momo::DataColumnTraits<Struct>, FailMM, momo::DataItemTraits<FailMM>, Settings> ColumnList;
 static ColumnList makeColumnList() { ColumnList cl; cl.Add(c, id); cl.Add(b); cl.Add(a); return cl; }
 #endif
-typedef momo::DataTable<ColumnList> Table;
+typedef momo::DataTable<ColumnList, Traits> Table;
+// the INTENDED configuration is really instantiated
+static_assert(Table::Settings::keepRowNumber == kKeepNumber, "keepRowNumber variant");
+static_assert(std::is_void<ColumnList::Raw>::value == kDynamic, "dynamic column lists have Raw = void, static ones Raw = Struct");
+static_assert(Table::DataTraits::selectEqualityMaxCount == kSelMax, "selectEqualityMaxCount variant");
+static_assert(Table::Settings::checkVersion == kCheckVersion, "checkVersion variant");
+static_assert(std::is_same<Table::MemManager, FailMM>::value, "the table allocates through the failure-injecting manager");
 typedef Table::Row Row;
 typedef Table::ConstRowReference CRef;
 typedef Table::RowReference RRef;
@@ -113,7 +132,7 @@ struct Bed
 	std::vector<R4> sh;                         // shadow rows (the oracle's state)
 	std::vector<int> shU, shM;                  // shadow: existing indexes as column masks, creation order
 	std::string fail;                           // first oracle failure
-	long ops = 0;
+	long ops = 0; long prevGroup = 0;
 
 	Bed() : table(makeColumnList()) {}
 
@@ -438,7 +457,7 @@ static std::string runOp(Bed& bed, const std::string& text)
 	auto tryResult = [&] (const Table::TryResult& res, bool expConflict, long en, long ej) {
 		if (!res) {
 			long n = bed.posOf(res.rowReference.GetRaw()); long j = long(static_cast<ptrdiff_t>(res.uniqueHashIndex));
-			out << "conflict " << n << " " << j;
+			out << "conflict " << n << " " << j; ++g_refusals;
 			if (!expConflict) bed.bad("operation refused although no row collides"); else if (n != en || j != ej) bed.bad("refusal reports row " + std::to_string(n) + " index " + std::to_string(j) + ", brute force " + std::to_string(en) + " " + std::to_string(ej));
 		} else { out << "ok"; if (expConflict) bed.bad("operation accepted although row " + std::to_string(en) + " collides on unique index " + std::to_string(ej)); }
 	};
@@ -449,7 +468,24 @@ static std::string runOp(Bed& bed, const std::string& text)
 		else {
 			long en = 0, ej = 0; bool conf = bed.shConflict(r, -1, en, ej);
 			std::optional<Row> row; std::optional<Table::TryResult> res;
-			bed.faulty(f != 0, [&] { if (!row) row.emplace(bed.newRow(r)); res.emplace(cmd == "A" ? table.TryAdd(std::move(*row)) : table.TryInsert(size_t(n), std::move(*row))); });
+			// the same operation through its three public entry points, by turns: Try*(Row&&), Try*Row(assignments...), throwing Add/Insert
+			int form = int(bed.ops % 3); int iv0 = int(r.v[0]), iv1 = int(r.v[1]), iv2 = int(r.v[2]); std::string sv3 = strOf(r.v[3]);
+			bed.faulty(f != 0, [&] {
+				if (form == 1)
+				{
+					res.emplace(cmd == "A"
+						? table.TryAddRow(CI::MakeAssignment(c, sv3), CI::MakeAssignment(id, iv0), CI::MakeAssignment(b, iv2), CI::MakeAssignment(a, iv1))
+						: table.TryInsertRow(size_t(n), CI::MakeAssignment(a, iv1), CI::MakeAssignment(id, iv0), CI::MakeAssignment(c, sv3), CI::MakeAssignment(b, iv2)));
+					return;
+				}
+				if (!row) row.emplace(bed.newRow(r));
+				if (form == 2)
+				{
+					try { RRef ref = (cmd == "A") ? table.Add(std::move(*row)) : table.Insert(size_t(n), std::move(*row)); res.emplace(Table::TryResult{ ref, momo::DataUniqueHashIndex::empty }); }
+					catch (const Table::UniqueIndexViolation& e) { res.emplace(static_cast<const Table::TryResult&>(e)); }
+					return;
+				}
+				res.emplace(cmd == "A" ? table.TryAdd(std::move(*row)) : table.TryInsert(size_t(n), std::move(*row))); });
 			if (!conf) sh.insert(sh.begin() + n, r);
 			tryResult(*res, conf, en, ej);
 			if (!!*res && bed.posOf(res->rowReference.GetRaw()) != n) bed.bad("TryAdd/TryInsert returns a reference to the wrong row");
@@ -462,7 +498,15 @@ static std::string runOp(Bed& bed, const std::string& text)
 		else {
 			long en = 0, ej = 0; bool conf = bed.shConflict(r, n, en, ej);
 			std::optional<Row> row; std::optional<Table::TryResult> res;
-			bed.faulty(f != 0, [&] { if (!row) row.emplace(bed.newRow(r)); res.emplace(table.TryUpdate(size_t(n), std::move(*row))); });
+			bed.faulty(f != 0, [&] {
+				if (!row) row.emplace(bed.newRow(r));
+				if (bed.ops % 2 == 1)
+				{
+					try { RRef ref = table.Update(size_t(n), std::move(*row)); res.emplace(Table::TryResult{ ref, momo::DataUniqueHashIndex::empty }); }
+					catch (const Table::UniqueIndexViolation& e) { res.emplace(static_cast<const Table::TryResult&>(e)); }
+					return;
+				}
+				res.emplace(table.TryUpdate(size_t(n), std::move(*row))); });
 			if (!conf) sh[n] = r;
 			tryResult(*res, conf, en, ej);
 		}
@@ -537,6 +581,23 @@ static std::string runOp(Bed& bed, const std::string& text)
 			if (cmd == "CP") { if (bed.ops & 1) { Table t2(static_cast<const Table&>(table)); table = std::move(t2); } else { Table t2(makeColumnList()); t2 = static_cast<const Table&>(table); table.Swap(t2); } }
 			else { Table t2(static_cast<const Table&>(table), [&p] (CRef ref) { return evalPred(*p, readRef(ref)); }); table = std::move(t2); } });
 		if (cmd == "CF") sh.erase(std::remove_if(sh.begin(), sh.end(), [&p] (const R4& r) { return !evalPred(*p, r); }), sh.end());
+		out << "ok";
+	}
+	else if (cmd == "RS")
+	{
+		int f; long n; is >> f >> n;
+		bed.faulty(f != 0, [&] { table.Reserve(size_t(n)); });
+		out << "ok";
+	}
+	else if (cmd == "CS")
+	{
+		// DataTable(const Selection&): the rows of the selection, NO indexes
+		int f; is >> f; std::unique_ptr<Pred> p = parsePred(is);
+		bed.faulty(f != 0, [&] {
+			if (bed.ops & 1) { Table t2(static_cast<const Table&>(table).Select([&p] (CRef ref) { return evalPred(*p, readRef(ref)); })); table = std::move(t2); }
+			else { Table t2(table.Select([&p] (CRef ref) { return evalPred(*p, readRef(ref)); })); table.Swap(t2); } });
+		sh.erase(std::remove_if(sh.begin(), sh.end(), [&p] (const R4& r) { return !evalPred(*p, r); }), sh.end());
+		bed.shU.clear(); bed.shM.clear();
 		out << "ok";
 	}
 	else if (cmd == "IU")
@@ -665,6 +726,12 @@ static std::string runOp(Bed& bed, const std::string& text)
 	bed.posValid = false;
 	if (mutating)
 	{
+		// measured coverage: largest multi-hash group, crossings of the segment boundaries 64 / 192 / 320 / 448
+		long cur = 0;
+		for (int mask : bed.shM) { std::map<std::vector<long>, long> cnt; for (const R4& r : sh) { long q = ++cnt[keyOf(mask, r)]; if (q > cur) cur = q; } }
+		static const long kT[4] = { 64, 192, 320, 448 };
+		for (int q = 0; q < 4; ++q) { if (bed.prevGroup <= kT[q] + 1 && cur > kT[q] + 1) ++g_up[q]; if (bed.prevGroup > kT[q] + 1 && cur <= kT[q] + 1) ++g_down[q]; }
+		bed.prevGroup = cur; if (cur > g_maxgroup) g_maxgroup = cur; if (long(sh.size()) > g_maxrows) g_maxrows = long(sh.size());
 		bed.verify(sh.size() <= 24 || bed.ops % 16 == 0);
 		bed.posValid = false;
 		out << " #" << table.GetCount() << ":" << bed.tableDigest() << ":" << bed.indexDigest();
@@ -699,6 +766,9 @@ int main(int argc, char** argv)
 		if (g_live != 0) { outLine += " !ORACLE-FAIL:memory leak (" + std::to_string(g_live) + " live blocks)"; g_live = 0; }
 		std::puts(outLine.c_str()); std::fflush(stdout); ++cases;
 	}
-	std::fprintf(stderr, "variant=%d cases=%ld oracle_failures=%ld injected_faults=%ld allocations=%ld\n", VARIANT, cases, failures, g_faults, g_allocs);
+	std::fprintf(stderr, "variant=%d dynamic=%d keepRowNumber=%d selectEqualityMaxCount=%d checkVersion=%d cases=%ld oracle_failures=%ld injected_faults=%ld allocations=%ld "
+		"refusals=%ld max_rows=%ld max_multi_group=%ld segment_up=%ld/%ld/%ld/%ld segment_down=%ld/%ld/%ld/%ld\n",
+		VARIANT, int(kDynamic), int(kKeepNumber), int(kSelMax), int(kCheckVersion), cases, failures, g_faults, g_allocs,
+		g_refusals, g_maxrows, g_maxgroup, g_up[0], g_up[1], g_up[2], g_up[3], g_down[0], g_down[1], g_down[2], g_down[3]);
 	return 0;
 }
